@@ -21,6 +21,7 @@ type session struct {
 	lateAttach   map[int]int // client -> step at which it first attaches
 	faultsLeft   int
 	rejoining    map[int]bool
+	firstAttachDone bool
 	jumped       bool
 }
 
@@ -44,6 +45,15 @@ func (rc *RunCtx) attachOpts(c int) *AttachOp {
 	}
 	if x["no_presence"] > 0 {
 		op.NoPresence = true
+	}
+	if x["no_presence_first"] > 0 && !rc.sess().firstAttachDone {
+		op.NoPresence = true
+	} else if p := x["no_presence_later_pct"]; p > 0 && rc.sess().firstAttachDone && rc.R.IntN(100) < p {
+		op.NoPresence = true
+	}
+	rc.sess().firstAttachDone = true
+	if op.NoPresence {
+		op.Presence = nil
 	}
 	if x["local_nogc_pct"] > 0 && rc.R.IntN(100) < x["local_nogc_pct"] {
 		op.LocalNoGC = true
